@@ -84,6 +84,12 @@ def run(tier, seed):
                 for d in (-3, -2, -1, 0, 1, 2, 3):
                     w = ulps(e, d) if 0 < e < float("inf") else e
                     if f["min"] <= w <= f["max"]: edge_vals.add(w)
+                # ... and at relative distances 1e-14 .. 1e-8 on both sides: the index is floor(log-like(v) * multiplier + offset) in binary64,
+                # so a value this close to an edge is where a loss of precision of that float (large offsets, large indexes) shows
+                if 0 < e < float("inf") and rng.random() < 0.5:
+                    for d in (1e-14, 1e-12, 1e-10, 1e-9, 1e-8):
+                        for w in (e * (1 - d), e * (1 + d)):
+                            if f["min"] <= w <= f["max"]: edge_vals.add(w)
         cases3.append(Case(c.name, ["mnew m " + s] + ["midx m " + f2h(v) for v in sorted(edge_vals)], {"spec": s, "vals": sorted(edge_vals)}))
     resC = core.run_cases(pid, "idx2", cases3)
     cases4 = []
@@ -111,7 +117,7 @@ def run(tier, seed):
                         rep.violation("glue-%d" % nmis, {"what": "the bit-exact model of the mapping formulas disagrees with the implementation; no clause of the property failed on this input unless reported separately",
                                                          "correspondence": "coq/Mapping/Glue.v vs ddsketch/mapping", "script": ["mnew m " + c.meta["spec"], l], "implementation": a, "model": b}, found_input=False)
     # ---- oracle
-    nfail = 0; evals = 0; samples = []; worst = Fraction(0)
+    nfail = 0; evals = 0; samples = []; worst = Fraction(0); kf_specs = []
     known = core.load_known_findings()
     for (c, impl, sides, model) in resD:
         s = c.meta["spec"]; f = facts[s]; want = c.meta["want"]
@@ -136,17 +142,23 @@ def run(tier, seed):
             prev = (v, i)
             val, lo, hi = tab.get(i, (None, None, None)); fv = Fraction(v)
             if val is None or val == "inf" or acc is None: fails.append(("Value(%d) is not finite" % i, v)); continue
-            err = abs(val - fv) / fv - acc; worst = max(worst, err)
-            if err > EPS: fails.append(("Value(Index(v)) = %s is not within alpha of v = %r (index %d, excess %.3g)" % (float(val), v, i, float(err)), v))
-            if lo is None or lo == "inf" or lo * (1 - EPS) > fv: fails.append(("v = %r lies below LowerBound(%d) = %s" % (v, i, None if lo is None else float(lo)), v))
+            # what the binary64 index float can resolve at this index: a few of its ulps, expressed as a relative distance in v
+            slack = Fraction(16 * max(abs(f["off"]), abs(i), 1) * math.log(f["gamma"]) * 1.5) / 2 ** 52
+            def cls(ex): return "index-float-precision" if EPS < ex <= slack else None
+            err = abs(val - fv) / fv - acc; worst = max(worst, err) if err <= slack else worst
+            if err > EPS: fails.append(("Value(Index(v)) = %s is not within alpha of v = %r (index %d, excess %.3g)" % (float(val), v, i, float(err)), v, cls(err)))
+            if lo is None or lo == "inf" or lo * (1 - EPS) > fv: fails.append(("v = %r lies below LowerBound(%d) = %s" % (v, i, None if lo is None else float(lo)), v, None if lo in (None, "inf") else cls((lo - fv) / fv)))
             if hi is None or (hi != "inf" and fv > hi * (1 + EPS)):      # +Inf is a valid upper bound for the last bin
-                fails.append(("v = %r lies above LowerBound(%d) = %s (the next bin's lower bound)" % (v, i + 1, hi if hi in (None, 'inf') else float(hi)), v))
-        for msg, v in fails[:3]:
+                fails.append(("v = %r lies above LowerBound(%d) = %s (the next bin's lower bound)" % (v, i + 1, hi if hi in (None, 'inf') else float(hi)), v, None if hi is None else cls((fv - hi) / fv)))
+        fails = [x if len(x) == 3 else (x[0], x[1], None) for x in fails]
+        fails.sort(key=lambda x: x[2] is not None)          # unexplained failures first
+        if any(k0 == "index-float-precision" for _, _, k0 in fails): kf_specs.append("%s (%d values)" % (s, sum(1 for x in fails if x[2] == "index-float-precision")))
+        for msg, v, k0 in fails[:3]:
             nfail += 1
-            key = "upper-bound-wraps" if "next bin's lower bound" in msg and (v is not None and v > f["max"] / 4) else None
+            key = k0 or ("upper-bound-wraps" if "next bin's lower bound" in msg and (v is not None and v > f["max"] / 4) else None)
             rep.violation("map-%s-%d" % (c.name, nfail), {"clause": msg, "script": ["mnew m " + s] + (["midx m " + f2h(v)] if v is not None else []), "spec": s}, found_input=True, key=key)
         if len(samples) < 3: samples.append({"spec": s, "points": [f2h(v) for v, _ in probes[s][:6]]})
-    rep.coverage.update({"evaluations": evals, "distinct_nontrivial": evals, "samples": samples,
+    rep.coverage.update({"evaluations": evals, "distinct_nontrivial": evals, "samples": samples, "known_finding_index_float_precision_specs": kf_specs,
                          "rule": "mappings: 3 kinds x alpha grid {1e-6..0.99} plus random alpha / (gamma, offset) pairs with non-default offsets; points per mapping: both range ends and neighbours, "
                                  "log-uniform random values over the whole indexable range, every sampled binade boundary 2^k +-0..2 ulps, the implementation's LowerBound(i) of sampled bins +-0..3 ulps; "
                                  "exact-rational oracle: accuracy within alpha+1e-12, containment within 1e-12 relative, Index non-decreasing over the sorted points, int32, reported accuracy within 2^-50. "
